@@ -613,6 +613,20 @@ pub fn tamper<B: Backend>(rec: &mut Recorder, st: &mut Stats, cfg: &Cfg) {
             }
         }
     }
+    // a password longer than one block of the PBKDF2 hash (128 bytes): every byte of it counts
+    {
+        let long: Vec<u8> = (0..300u32).map(|i| (i * 7 + 3) as u8).collect();
+        if let Some((_, blob)) = pw_wrap::<B, Local>(rec, st, lk, &long, Some(cost), None) {
+            pw_unwrap::<B, Local>(rec, st, &blob, &long, json!({"cls":"identity"}));
+            let mut last = long.clone();
+            last[299] ^= 1;
+            let mut mid = long.clone();
+            mid[200] ^= 0x80;
+            for p2 in [&long[..128], &long[..129], &long[..200], &long[..299], &last[..], &mid[..]] {
+                pw_unwrap::<B, Local>(rec, st, &blob, p2, json!({"cls":"other-password","long":true}));
+            }
+        }
+    }
     // a work factor of zero is outside the valid range (RFC 8018: a positive iteration count; Argon2: at least one pass): a backend
     // may refuse to wrap with it, but a blob it does produce must still be bound to its password.  The blob is not recorded as an
     // honest wrap, so the specification demands that every presentation of it under ANOTHER password is rejected.
